@@ -13,6 +13,15 @@ Theorem reaction_honoured : forall p v k,
 Proof. exact reaction_honoured_lemma. Qed.
 Print Assumptions reaction_honoured.
 
+(* With several kinds triggered at once: errcheck produces the reaction of the first kind (in
+   the sorted order it examines them) that is triggered and whose reaction is not 'ignore', and
+   nothing when there is none -- an ignored kind never masks the kinds after it. *)
+Theorem ignored_kinds_do_not_mask : forall p v,
+  errcheck p v [] = Ok (match first_live p v (ssorted (dkeys registry)) with
+                        | Some k => expected_event p k | None => EvNone end).
+Proof. exact errcheck_first_live. Qed.
+Print Assumptions ignored_kinds_do_not_mask.
+
 Theorem reaction_table : forall p k r,
   dget (st p) k = Some r ->
   expected_event p k =
@@ -66,6 +75,12 @@ Print Assumptions duplicate_tests_independent_of_size.
 Definition view_obssize : view :=
   {| v_empty := false; v_rows := 2; v_cols := 1; v_oids := [1;2;3]%Z; v_sids := [7]%Z; v_omd := None; v_smd := None |}.
 Example only_trigger_obssize : only_trigger view_obssize "obssize".
+Proof. vm_compute. reflexivity. Qed.
+(* an empty table with one observation id too many: 'empty' is ignored by default, 'obssize' still raises *)
+Example ignored_empty_does_not_mask_obssize :
+  errcheck default_profile
+    {| v_empty := true; v_rows := 0; v_cols := 1; v_oids := [1]%Z; v_sids := [7]%Z; v_omd := None; v_smd := None |} []
+  = Ok (EvRaise "obssize").
 Proof. vm_compute. reflexivity. Qed.
 Example block_changes_then_restores :
   let prog := [IBlock [("obsdup","ignore")] [ISeterr [("empty","raise")]; IBlock [("all","warn")] [] true] true] in
